@@ -80,9 +80,72 @@ func constOf(c *Ctx, pkgRel, name string) *big.Int {
 	return bi
 }
 
+// largestKOf: the constant comb.largestK when the package still declares it, otherwise the last index
+// of maxSizes (a guard written against len(maxSizes) needs no constant).
+func largestKOf(c *Ctx, tableLen int) int64 {
+	if k, ok := c.Pkg("comb").Types.Scope().Lookup("largestK").(*types.Const); ok {
+		bi, _ := new(big.Int).SetString(constant.ToInt(k.Val()).ExactString(), 10)
+		return bi.Int64()
+	}
+	return int64(tableLen) - 1
+}
+
 func binom(n, k int64) *big.Int { return new(big.Int).Binomial(n, k) }
 
 var maxU64 = new(big.Int).Sub(new(big.Int).Lsh(big.NewInt(1), 64), big.NewInt(1))
+
+// tableCovered: the functions whose arithmetic TABLE accounts for (CoeffUint64 and, when the
+// multiplicative loop lives in an unexported helper that only CoeffUint64 calls, that helper).
+func tableCovered(c *Ctx) map[string]bool {
+	out := map[string]bool{"comb.CoeffUint64": true}
+	fn := c.FnOpt("comb.CoeffUint64")
+	if fn == nil || len(loopsOf(fn)) != 0 {
+		return out
+	}
+	for _, b := range fn.Blocks {
+		for _, in := range b.Instrs {
+			if call, ok := in.(*ssa.Call); ok {
+				if cal := call.Call.StaticCallee(); cal != nil && c.inModule(cal) && cal.Blocks != nil && len(loopsOf(cal)) == 1 && cal.Object() != nil && !cal.Object().Exported() {
+					only := true
+					for _, f := range c.Funcs {
+						if f == fn {
+							continue
+						}
+						for _, b2 := range f.Blocks {
+							for _, in2 := range b2.Instrs {
+								if c2, ok := in2.(*ssa.Call); ok && c2.Call.StaticCallee() == cal {
+									only = false
+								}
+							}
+						}
+					}
+					if only {
+						out[c.short(cal)] = true
+					}
+				}
+			}
+		}
+	}
+	return out
+}
+
+// feedsTableProduct: the sum is used only as a factor of the table-guarded product.
+func feedsTableProduct(bo *ssa.BinOp) bool {
+	refs := bo.Referrers()
+	if refs == nil || len(*refs) == 0 {
+		return false
+	}
+	for _, r := range *refs {
+		if _, isDbg := r.(*ssa.DebugRef); isDbg {
+			continue
+		}
+		m, ok := r.(*ssa.BinOp)
+		if !ok || m.Op != token.MUL || !isTableProduct(m) {
+			return false
+		}
+	}
+	return true
+}
 
 func tableRows(c *Ctx) [][]*big.Int {
 	small, _, _ := constTable(c, "comb", "smallEntries")
@@ -119,7 +182,7 @@ func ruleTable(c *Ctx) *RuleResult {
 	if !flat {
 		failf("comb.maxSizes is not a flat table")
 	}
-	largestK := constOf(c, "comb", "largestK").Int64()
+	largestK := largestKOf(c, len(ms))
 	r.inst("len(maxSizes) = largestK+1 = %d", largestK+1)
 	r.oblig(int64(len(ms)) == largestK+1)
 	if int64(len(ms)) != largestK+1 {
@@ -274,11 +337,53 @@ func shapeCoeffUint64(c *Ctx, r *RuleResult) {
 	if nP == nil || kP == nil {
 		failf("comb.CoeffUint64: parameters n, k not found")
 	}
-	largestK := constOf(c, "comb", "largestK").Int64()
+	ms, _, _ := constTable(c, "comb", "maxSizes")
+	largestK := largestKOf(c, len(ms))
+	// the multiplicative loop: in CoeffUint64 itself, or in the one helper it calls that has a loop
+	loopFn, LP := fn, P
+	var via *ssa.Call
 	loops := loopsOf(fn)
+	if len(loops) == 0 {
+		for _, b := range fn.Blocks {
+			for _, in := range b.Instrs {
+				if call, ok := in.(*ssa.Call); ok {
+					if cal := call.Call.StaticCallee(); cal != nil && c.inModule(cal) && cal.Blocks != nil && len(loopsOf(cal)) == 1 {
+						if via != nil {
+							r.undecided("comb.CoeffUint64 calls several helpers with loops; the table obligations are about a single multiplicative loop")
+							return
+						}
+						via = call
+					}
+				}
+			}
+		}
+		if via != nil {
+			loopFn = via.Call.StaticCallee()
+			LP = NewProver(c, loopFn)
+			loops = loopsOf(loopFn)
+			r.note("the multiplicative loop is in %s, called from CoeffUint64: its shape is read there, its guards at the call", c.short(loopFn))
+		}
+	}
 	if len(loops) != 1 {
 		r.undecided("comb.CoeffUint64 has %d loops; the table obligations are about a single multiplicative loop", len(loops))
 		return
+	}
+	// toCaller translates a polynomial over the loop function's parameters to CoeffUint64's terms
+	toCaller := func(q Poly) (Poly, bool) {
+		if via == nil {
+			return q, true
+		}
+		return translatePolyX(LP, q, loopFn, P, via.Call.Args, nil)
+	}
+	var tabG *ssa.Global
+	if sp := c.Prog.Package(c.Pkg("comb").Types); sp != nil {
+		if m, ok := sp.Members["maxSizes"].(*ssa.Global); ok {
+			tabG = m
+		}
+	}
+	if false {
+		var m *ssa.Global
+		tabG = m
 	}
 	for h, body := range loops {
 		// find acc phi:   acc' = (acc * X) / i
@@ -313,12 +418,10 @@ func shapeCoeffUint64(c *Ctx, r *RuleResult) {
 			return
 		}
 		r.inst("comb.CoeffUint64: loop acc=%s i=%s", valName(acc), valName(iv))
-		// factor = n - k' + i where k' is the (reduced) k used by guard and loop test
 		factor := mul.X
 		if factor == ssa.Value(acc) {
 			factor = mul.Y
 		}
-		// initial values
 		initOK := true
 		for ei, p := range h.Preds {
 			if body[p] {
@@ -331,13 +434,12 @@ func shapeCoeffUint64(c *Ctx, r *RuleResult) {
 				initOK = false
 			}
 		}
-		// step i+1
 		stepOK := true
 		for ei, p := range h.Preds {
 			if !body[p] {
 				continue
 			}
-			if P.poly(iv.Edges[ei]).add(P.poly(iv), -1).add(constP(-1), 1).key() != "" {
+			if LP.poly(iv.Edges[ei]).add(LP.poly(iv), -1).add(constP(-1), 1).key() != "" {
 				stepOK = false
 			}
 		}
@@ -356,74 +458,74 @@ func shapeCoeffUint64(c *Ctx, r *RuleResult) {
 			r.undecided("comb.CoeffUint64: loop test is not i <= k")
 			return
 		}
-		kp := P.poly(K)
-		want := P.poly(nP).add(kp, -1).add(P.poly(iv), 1)
-		fOK := P.poly(factor).add(want, -1).key() == ""
+		kp, okK := toCaller(LP.poly(K))
+		base, okB := toCaller(LP.poly(factor).add(LP.poly(iv), -1)) // factor - i
+		if !okK || !okB {
+			r.undecided("comb.CoeffUint64: the loop bound or factor of %s is not a function of its parameters", c.short(loopFn))
+			return
+		}
+		want := P.poly(nP).add(kp, -1)
+		fOK := base.add(want, -1).key() == ""
 		r.oblig(fOK)
 		if !fOK {
-			r.find("comb.CoeffUint64:factor", c.instrPos(mul), "the loop multiplies by %s, not by n-k+i; the largest intermediate is no longer k*C(n,k)", P.showTerm(P.poly(factor)))
+			r.find("comb.CoeffUint64:factor", c.instrPos(mul), "the loop multiplies by %s + i, not by n-k+i; the largest intermediate is no longer k*C(n,k)", P.showTerm(base))
 		}
-		// guards at loop entry
-		var pre *ssa.BasicBlock
-		for _, p := range h.Preds {
-			if !body[p] {
-				pre = p
+		// guards where the loop is entered (at the call when it lives in a helper)
+		prove := func(goal Poly) bool {
+			if via != nil {
+				return P.Prove(goal, via.Block())
 			}
+			var pre *ssa.BasicBlock
+			for _, p := range h.Preds {
+				if !body[p] {
+					pre = p
+				}
+			}
+			return P.ProveWith(goal, pre, P.edgeFacts(pre, h))
 		}
-		g1 := P.ProveWith(kp.add(constP(-largestK), 1), pre, P.edgeFacts(pre, h))
+		g1 := prove(kp.add(constP(-largestK), 1))
 		r.inst("comb.CoeffUint64: loop entered only with k <= largestK")
 		r.oblig(g1)
 		if !g1 {
 			r.find("comb.CoeffUint64:guard k<=largestK", c.instrPos(acc), "the multiplicative loop can be entered with k > largestK (%d): no threshold exists for such k", largestK)
 		}
-		// n <= maxSizes[k]: find the load maxSizes[K]
-		var ld ssa.Value
-		for _, b := range fn.Blocks {
-			for _, in := range b.Instrs {
-				u, ok := isLoad(in)
-				if !ok {
-					continue
-				}
-				ia, ok := u.X.(*ssa.IndexAddr)
-				if !ok {
-					continue
-				}
-				base, ok := ia.X.(*ssa.UnOp)
-				if !ok {
-					continue
-				}
-				g, ok := base.X.(*ssa.Global)
-				if !ok || g.Name() != "maxSizes" {
-					continue
-				}
-				if P.poly(ia.Index).add(kp, -1).key() == "" {
-					ld = u
-				}
-			}
-		}
+		// n <= maxSizes[k]
 		g2 := false
-		if ld != nil {
-			g2 = P.ProveWith(P.poly(nP).add(P.poly(ld), -1), pre, P.edgeFacts(pre, h))
+		if tabG != nil && c.immutableTable(tabG) {
+			cell := atomP(P.atom(aTab, tabG, kp, 0, true).id)
+			g2 = prove(P.poly(nP).add(cell, -1))
 		}
 		r.inst("comb.CoeffUint64: loop entered only with n <= maxSizes[k]")
 		r.oblig(g2)
 		if !g2 {
 			r.find("comb.CoeffUint64:guard n<=maxSizes[k]", c.instrPos(acc), "the multiplicative loop can be entered without n <= maxSizes[k] having been established: the product can wrap")
 		}
-		g3 := P.ProveWith(kp.scale(2).add(P.poly(nP), -1), pre, P.edgeFacts(pre, h))
+		g3 := prove(kp.scale(2).add(P.poly(nP), -1))
 		r.inst("comb.CoeffUint64: loop entered only with 2k <= n (symmetric reduction)")
 		r.oblig(g3)
 		if !g3 {
 			r.find("comb.CoeffUint64:reduction k<=n/2", c.instrPos(acc), "the loop can run with k > n/2; the thresholds are only valid after the symmetric reduction")
 		}
-		// result: every return after the loop returns acc
-		for _, b := range fn.Blocks {
+		// result: every return after the loop returns acc (and CoeffUint64 returns the helper's result)
+		for _, b := range loopFn.Blocks {
 			if ret, ok := b.Instrs[len(b.Instrs)-1].(*ssa.Return); ok && h.Dominates(b) && !body[b] {
 				ok2 := ret.Results[0] == ssa.Value(acc)
 				r.oblig(ok2)
 				if !ok2 {
 					r.find("comb.CoeffUint64:result", c.instrPos(ret), "the value returned after the loop is not the accumulated product")
 				}
+			}
+		}
+		if via != nil {
+			used := false
+			for _, ref := range *via.Referrers() {
+				if ret, ok := ref.(*ssa.Return); ok && len(ret.Results) == 1 && ret.Results[0] == ssa.Value(via) {
+					used = true
+				}
+			}
+			r.oblig(used)
+			if !used {
+				r.find("comb.CoeffUint64:result", c.instrPos(via), "CoeffUint64 does not return the product computed by %s", c.short(loopFn))
 			}
 		}
 	}
@@ -603,6 +705,8 @@ func ruleOvf(c *Ctx, pkgRel string, tableGuarded map[string]bool) *RuleResult {
 					}
 				case tableGuarded[name] && bo.Op == token.MUL && isTableProduct(bo):
 					how = "table-guarded product (TABLE)"
+				case tableGuarded[name] && name != "comb.CoeffUint64" && bo.Op == token.ADD && feedsTableProduct(bo):
+					how = "factor of the table-guarded product (TABLE checks it is n-k+i <= n at the call)"
 				case bo.Op == token.ADD && checkedAddIdiom(bo):
 					how = "checked-addition idiom"
 				default:
@@ -707,10 +811,10 @@ func init() {
 			for _, n := range []string{"comb.CoeffUint64", "comb.Coeff", "comb.Coeffs", "comb.Rank", "comb.Unrank"} {
 				noWrites(c, pure, c.Fn(n), nil, "its arguments or any shared state")
 			}
-			return []*RuleResult{ruleTable(c), ruleOvf(c, "comb", map[string]bool{"comb.CoeffUint64": true}), pure}
+			return []*RuleResult{ruleTable(c), ruleOvf(c, "comb", tableCovered(c)), pure}
 		},
 		controls: func(ctl *Ctx) []*RuleResult {
-			return []*RuleResult{ruleOvf(ctl, "ovfctl", nil), ruleTable(ctl), ruleOvf(ctl, "comb", map[string]bool{"comb.CoeffUint64": true})}
+			return []*RuleResult{ruleOvf(ctl, "ovfctl", nil), ruleTable(ctl), ruleOvf(ctl, "comb", tableCovered(ctl))}
 		},
 	})
 }
